@@ -306,7 +306,9 @@ def shared(ctx):
     from rules.engine import core
     from rules.props import c03, c15
     core.import_rules(ctx, [c03.r2_batch_commutativity], "X03")
-    core.import_rules(ctx, [c15.r5_only_selected], "X15")
+    # the synthesized second coin of a withdrawal sits at index 1: it is a fresh id (and insert_coin's count step applies) only because the
+    # selection admits withdrawals with exactly one output (C15.R1)
+    core.import_rules(ctx, [c15.r1_selection_atoms, c15.r5_only_selected], "X15")
 
 
 RULES = [r1_protocol, r2_confinement, r3_flag_provenance, r4_activation, shared]
